@@ -32,7 +32,11 @@ func genWSMessages(t *sim.Tape, n int, thorough, inject bool, tag string) []wsMs
 		case 2: // text with multi-byte UTF-8, quotes, HTML-sensitive characters
 			m.Data = []byte(fmt.Sprintf("%s-%04d:", tag, i) + strings.Repeat("é€𝄞<\"&>\\\n ", 1+sz/40))
 		case 3: // JSON documents (the ones header injection looks at)
-			switch t.Choice(5, "jsonkind") {
+			switch t.Choice(7, "jsonkind") {
+			case 5: // present with values that a careless check reads as absent
+				m.Data = []byte(fmt.Sprintf(`{"resource":{"headers":{"X-Inject-Me":"","X-Second":null,"Existing":"keep"}},"n":%d,"tag":"%s"}`, i, tag))
+			case 6: // present with values that are not strings
+				m.Data = []byte(fmt.Sprintf(`{"resource":{"headers":{"X-Inject-Me":0,"X-Second":false,"Other":[]}},"n":%d,"tag":"%s"}`, i, tag))
 			case 0:
 				m.Data = []byte(fmt.Sprintf(`{"resource":{"headers":{"Existing":"keep","X-Inject-Me":"original"}},"n":%d,"tag":"%s"}`, i, tag))
 			case 1:
